@@ -107,24 +107,24 @@ example : isI32 (-1) ∧ isI64 (-5) := by unfold isI32 isI64; decide
 /-- **`Hash(bytes)`**, nil or not: `crc := 0xffffffff; sz := len(bytes); for i := 0; i < sz; i++ { … }; crc ^= …;
     return int32(crc)` — every block regenerated from the source and interpreted by `GoSem` — is `Hash.hash`,
     hence CRC-32 (IEEE) of the bytes by `C15.hash_is_crc32`.  No hypothesis on the start environment. -/
-theorem hash_full_tied (o : Option Bytes) (hw : WFB (o.getD [])) (hl : (o.getD []).length < 4611686018427387904) (ρ : Env) :
+theorem hash_full_tied (o : Option Bytes) (hw : WFB (o.getD [])) (hl : (o.getD []).length < 4611686018427387904) (ρ : Env) (e : Nat) :
     callWhile (hashArrsO o) loop_Hash.pre loop_Hash.init loop_Hash.cond loop_Hash.post loop_Hash.body loop_Hash.after
-      ((o.getD []).length + 1) ρ = Hash.hash (o.getD []) :=
+      ((o.getD []).length + 1 + e) ρ = Hash.hash (o.getD []) :=
   hash_full_bridge _ _ _ _ _ _ ⟨by decide +kernel, by decide +kernel, by decide +kernel, by decide +kernel,
-    by decide +kernel, by decide +kernel⟩ o hw hl ρ
+    by decide +kernel, by decide +kernel⟩ o hw hl ρ e
 
-theorem hash64_full_tied (o : Option Bytes) (hw : WFB (o.getD [])) (hl : (o.getD []).length < 4611686018427387904) (ρ : Env) :
+theorem hash64_full_tied (o : Option Bytes) (hw : WFB (o.getD [])) (hl : (o.getD []).length < 4611686018427387904) (ρ : Env) (e : Nat) :
     callWhile (hashArrsO o) loop_Hash64.pre loop_Hash64.init loop_Hash64.cond loop_Hash64.post loop_Hash64.body
-      loop_Hash64.after ((o.getD []).length + 1) ρ = Hash.hash64 (o.getD []) :=
+      loop_Hash64.after ((o.getD []).length + 1 + e) ρ = Hash.hash64 (o.getD []) :=
   hash64_full_bridge _ _ _ _ _ _ ⟨by decide +kernel, by decide +kernel, by decide +kernel, by decide +kernel,
-    by decide +kernel, by decide +kernel⟩ o hw hl ρ
+    by decide +kernel, by decide +kernel⟩ o hw hl ρ e
 
 /-- the regenerated `Hash` computes CRC-32 (IEEE) of the bytes, read as int32 — the property's first clause,
     stated about the regenerated code -/
-theorem hash_crc32_tied (o : Option Bytes) (hw : WFB (o.getD [])) (hl : (o.getD []).length < 4611686018427387904) (ρ : Env) :
+theorem hash_crc32_tied (o : Option Bytes) (hw : WFB (o.getD [])) (hl : (o.getD []).length < 4611686018427387904) (ρ : Env) (e : Nat) :
     callWhile (hashArrsO o) loop_Hash.pre loop_Hash.init loop_Hash.cond loop_Hash.post loop_Hash.body loop_Hash.after
-      ((o.getD []).length + 1) ρ = Hash.toI32 (Hash.crc32 (o.getD [])) := by
-  rw [hash_full_tied o hw hl ρ]
+      ((o.getD []).length + 1 + e) ρ = Hash.toI32 (Hash.crc32 (o.getD [])) := by
+  rw [hash_full_tied o hw hl ρ e]
   unfold Hash.hash
   rw [Hash.hashU_eq_crc32 _ hw]
 
@@ -134,28 +134,28 @@ theorem crc_table_generated_tied : crcTable = (List.range 256).map Hash.crcEntry
 
 /-- `Hash64v2` including `if bytes == nil { return 0 }` (`none` is the nil slice) -/
 theorem hash64v2_full_tied (o : Option Bytes) (hw : WFB (o.getD [])) (hl : (o.getD []).length < 4611686018427387904)
-    (ρ : Env) :
+    (ρ : Env) (e : Nat) :
     callWhile (hashArrsO o) loop_Hash64v2.pre loop_Hash64v2.init loop_Hash64v2.cond loop_Hash64v2.post loop_Hash64v2.body
-      loop_Hash64v2.after ((o.getD []).length + 1) ρ = Hash.hash64v2 o :=
+      loop_Hash64v2.after ((o.getD []).length + 1 + e) ρ = Hash.hash64v2 o :=
   hash64v2_full_bridge _ _ _ _ _ _ ⟨by decide +kernel, by decide +kernel, by decide +kernel, by decide +kernel,
-    by decide +kernel, by decide +kernel⟩ o hw hl ρ
+    by decide +kernel, by decide +kernel⟩ o hw hl ρ e
 
 /-- `Hash64V2` including `if sz := len(bytes); sz == 0 { return 0 } else { … }` -/
 theorem hash64V2_full_tied (o : Option Bytes) (hw : WFB (o.getD [])) (hl : (o.getD []).length < 4611686018427387904)
-    (ρ : Env) :
+    (ρ : Env) (e : Nat) :
     callWhile (hashArrsO o) loop_Hash64V2.pre loop_Hash64V2.init loop_Hash64V2.cond loop_Hash64V2.post loop_Hash64V2.body
-      loop_Hash64V2.after ((o.getD []).length + 1) ρ = Hash.hash64V2 o :=
+      loop_Hash64V2.after ((o.getD []).length + 1 + e) ρ = Hash.hash64V2 o :=
   hash64V2_full_bridge _ _ _ _ _ _ ⟨by decide +kernel, by decide +kernel, by decide +kernel, by decide +kernel,
-    by decide +kernel, by decide +kernel⟩ o hw hl ρ
+    by decide +kernel, by decide +kernel⟩ o hw hl ρ e
 
 /-- hence the two regenerated v2 implementations agree on every input -/
 theorem hash64v2_agree_tied (o : Option Bytes) (hw : WFB (o.getD [])) (hl : (o.getD []).length < 4611686018427387904)
-    (ρ ρ' : Env) :
+    (ρ ρ' : Env) (e : Nat) :
     callWhile (hashArrsO o) loop_Hash64v2.pre loop_Hash64v2.init loop_Hash64v2.cond loop_Hash64v2.post loop_Hash64v2.body
-      loop_Hash64v2.after ((o.getD []).length + 1) ρ
+      loop_Hash64v2.after ((o.getD []).length + 1 + e) ρ
     = callWhile (hashArrsO o) loop_Hash64V2.pre loop_Hash64V2.init loop_Hash64V2.cond loop_Hash64V2.post
-      loop_Hash64V2.body loop_Hash64V2.after ((o.getD []).length + 1) ρ' := by
-  rw [hash64v2_full_tied o hw hl ρ, hash64V2_full_tied o hw hl ρ']
+      loop_Hash64V2.body loop_Hash64V2.after ((o.getD []).length + 1 + e) ρ' := by
+  rw [hash64v2_full_tied o hw hl ρ e, hash64V2_full_tied o hw hl ρ' e]
   exact Hash.hash64v2_agree o
 
 /-- `HashAddr`: `switch len(src) { case 4: c := ToInt(src); return int64(c)*int64(c)  case 8: return ToLong(src)
@@ -171,11 +171,11 @@ theorem hashAddr_calls_tied :
     ∧ fn_HashAddr.names.lookup "Hash(#0)" = some 4 := by decide
 
 /-- `stringutil.HashCode`, whole function with its `for i := 0; i < len(s); i++` -/
-theorem hashCode_full_tied (bs : Bytes) (hw : WFB bs) (hl : bs.length < 4611686018427387904) (ρ : Env) :
+theorem hashCode_full_tied (bs : Bytes) (hw : WFB bs) (hl : bs.length < 4611686018427387904) (ρ : Env) (e : Nat) :
     callWhile (strArrs bs) loop_HashCode.pre loop_HashCode.init loop_HashCode.cond loop_HashCode.post loop_HashCode.body
-      loop_HashCode.after (bs.length + 1) ρ = StrHash.hashCode bs :=
+      loop_HashCode.after (bs.length + 1 + e) ρ = StrHash.hashCode bs :=
   hashCode_full_bridge _ _ _ _ _ _ (by decide +kernel) (by decide +kernel) (by decide +kernel) (by decide +kernel)
-    (by decide +kernel) (by decide +kernel) (by decide +kernel) bs hw hl ρ
+    (by decide +kernel) (by decide +kernel) (by decide +kernel) bs hw hl ρ e
 
 example : WFB ((some [104, 105] : Option Bytes).getD []) := by decide
 
@@ -203,11 +203,11 @@ theorem findc_tied (c : Char) : call noArr fn_findc [(c.toNat : Int)] = Hexa32.f
 
 /-- `to_str(v)`: `radix := 32`, `i = -i`, the digit loop on the negated value (condition, stored digit,
     `i = i / radix`), the last digit — is `Hexa32.toStr v`, for every `0 ≤ v ≤ MaxInt64` -/
-theorem toStr_tied (v : Int) (hv : 0 ≤ v ∧ v ≤ Hexa32.maxInt64) (ρ : Env) (h0 : ρ 0 = v) :
-    goToStrLoop hexaArrs loop_to_str.cond loop_to_str.body loop_to_str.post loop_to_str.after (v.natAbs + 1)
+theorem toStr_tied (v : Int) (hv : 0 ≤ v ∧ v ≤ Hexa32.maxInt64) (ρ : Env) (h0 : ρ 0 = v) (fuel : Nat) (hf : v.natAbs ≤ fuel) :
+    goToStrLoop hexaArrs loop_to_str.cond loop_to_str.body loop_to_str.post loop_to_str.after (fuel + 1)
       (runEnv hexaArrs (runEnv hexaArrs ρ loop_to_str.pre) loop_to_str.init) [] = Hexa32.toStr v :=
   toStr_fn_bridge _ _ _ _ _ _ (by decide +kernel) (by decide +kernel) (by decide +kernel) (by decide +kernel)
-    (by decide +kernel) (by decide +kernel) v hv ρ h0
+    (by decide +kernel) (by decide +kernel) v hv ρ h0 fuel hf
 
 example : (0 : Int) ≤ 35 ∧ (35 : Int) ≤ Hexa32.maxInt64 := by decide
 
@@ -229,7 +229,7 @@ theorem toString32_full_tied (n : Int) (hn : Hexa32.minInt64 ≤ n ∧ n ≤ Hex
   have e : tree_ToString32 = GoModel.tree_ToString32 := by decide +kernel
   rw [e]
   exact StrShape.toString32_bridge goToStrF
-    (fun v h0 h1 => toStr_tied v ⟨h0, h1⟩ _ (by simp [upd])) A ρ n h0 hn.1 hn.2
+    (fun v h0 h1 => toStr_tied v ⟨h0, h1⟩ _ (by simp [upd]) _ (Nat.le_refl _)) A ρ n h0 hn.1 hn.2
 
 /-- **`ToLong32(str)`** — empty text, first byte `z` / `x`, the MinInt64 literal, `-1 * to_long(str[1:])`,
     `strconv.Atoi` otherwise, with `to_long` the regenerated function — is `Hexa32.toLong32`, on every text -/
@@ -258,37 +258,37 @@ theorem murmurHashLong_fn_tied (d : Nat) (hd : d < 18446744073709551616) :
     loop, tail and avalanche — is `Murmur.murmur32 data seed` (Props.C15: the exact relation to MurmurHash2).
     `ρ 1`, `ρ 2` are the arguments `length`, `seed`. -/
 theorem murmurHash_full_tied (data : Bytes) (hw : WFB data) (seed : Nat) (hs : seed < 4294967296)
-    (hl : data.length < 2147483648) (ρ : Env) (h1 : ρ 1 = (data.length : Int)) (h2 : ρ 2 = (seed : Int)) :
+    (hl : data.length < 2147483648) (ρ : Env) (h1 : ρ 1 = (data.length : Int)) (h2 : ρ 2 = (seed : Int)) (e : Nat) :
     callWhile (dataArrs data) loop_murmurHash.pre loop_murmurHash.init loop_murmurHash.cond loop_murmurHash.post
-      loop_murmurHash.body loop_murmurHash.after (data.length / 4 + 1) ρ = ((Murmur.murmur32 data seed : Nat) : Int) :=
+      loop_murmurHash.body loop_murmurHash.after (data.length / 4 + 1 + e) ρ = ((Murmur.murmur32 data seed : Nat) : Int) :=
   murmur32_full_bridge _ _ _ _ _ _ (by decide +kernel) (by decide +kernel) (by decide +kernel) (by decide +kernel)
-    (by decide +kernel) (by decide +kernel) (by decide +kernel) data hw seed hs hl ρ h1 h2
+    (by decide +kernel) (by decide +kernel) (by decide +kernel) data hw seed hs hl ρ h1 h2 e
 
 /-- … which is the published MurmurHash2 of the input with its last `len % 4` bytes reversed -/
 theorem murmurHash_ref_tied (data : Bytes) (hw : WFB data) (seed : Nat) (hs : seed < 4294967296)
-    (hl : data.length < 2147483648) (ρ : Env) (h1 : ρ 1 = (data.length : Int)) (h2 : ρ 2 = (seed : Int)) :
+    (hl : data.length < 2147483648) (ρ : Env) (h1 : ρ 1 = (data.length : Int)) (h2 : ρ 2 = (seed : Int)) (e : Nat) :
     callWhile (dataArrs data) loop_murmurHash.pre loop_murmurHash.init loop_murmurHash.cond loop_murmurHash.post
-      loop_murmurHash.body loop_murmurHash.after (data.length / 4 + 1) ρ
+      loop_murmurHash.body loop_murmurHash.after (data.length / 4 + 1 + e) ρ
       = ((Murmur.Ref.murmurHash2 (Murmur.swapTail data) seed : Nat) : Int) := by
-  rw [murmurHash_full_tied data hw seed hs hl ρ h1 h2, Murmur.murmur32_eq_ref_swapTail data seed hw]
+  rw [murmurHash_full_tied data hw seed hs hl ρ h1 h2 e, Murmur.murmur32_eq_ref_swapTail data seed hw]
 
 /-- `murmurHashLong(data, len(data), seed)` (behind `MurmurHashLongByte`): prelude, `for i := 0; i < int(length8); i++`,
     the fall-through `switch` on `length % 8`, avalanche — is `Murmur.murmur64 data seed` = MurmurHash64A -/
 theorem murmurHashLong64_full_tied (data : Bytes) (hw : WFB data) (seed : Nat) (hs : seed < 4294967296)
-    (hl : data.length < 2147483648) (ρ : Env) (h1 : ρ 1 = (data.length : Int)) (h2 : ρ 2 = (seed : Int)) :
+    (hl : data.length < 2147483648) (ρ : Env) (h1 : ρ 1 = (data.length : Int)) (h2 : ρ 2 = (seed : Int)) (e : Nat) :
     callWhile (dataArrs data) loop_murmurHashLong.pre loop_murmurHashLong.init loop_murmurHashLong.cond
-      loop_murmurHashLong.post loop_murmurHashLong.body loop_murmurHashLong.after (data.length / 8 + 1) ρ
+      loop_murmurHashLong.post loop_murmurHashLong.body loop_murmurHashLong.after (data.length / 8 + 1 + e) ρ
       = ((Murmur.murmur64 data seed : Nat) : Int) :=
   murmur64_full_bridge _ _ _ _ _ _ (by decide +kernel) (by decide +kernel) (by decide +kernel) (by decide +kernel)
-    (by decide +kernel) (by decide +kernel) (by decide +kernel) data hw seed hs hl ρ h1 h2
+    (by decide +kernel) (by decide +kernel) (by decide +kernel) data hw seed hs hl ρ h1 h2 e
 
 /-- the regenerated `murmurHashLong` is the published MurmurHash64A -/
 theorem murmurHashLong64_ref_tied (data : Bytes) (hw : WFB data) (seed : Nat) (hs : seed < 4294967296)
-    (hl : data.length < 2147483648) (ρ : Env) (h1 : ρ 1 = (data.length : Int)) (h2 : ρ 2 = (seed : Int)) :
+    (hl : data.length < 2147483648) (ρ : Env) (h1 : ρ 1 = (data.length : Int)) (h2 : ρ 2 = (seed : Int)) (e : Nat) :
     callWhile (dataArrs data) loop_murmurHashLong.pre loop_murmurHashLong.init loop_murmurHashLong.cond
-      loop_murmurHashLong.post loop_murmurHashLong.body loop_murmurHashLong.after (data.length / 8 + 1) ρ
+      loop_murmurHashLong.post loop_murmurHashLong.body loop_murmurHashLong.after (data.length / 8 + 1 + e) ρ
       = ((Murmur.Ref.murmurHash64A data seed : Nat) : Int) := by
-  rw [murmurHashLong64_full_tied data hw seed hs hl ρ h1 h2, Murmur.murmur64_eq_ref data seed hw]
+  rw [murmurHashLong64_full_tied data hw seed hs hl ρ h1 h2 e, Murmur.murmur64_eq_ref data seed hw]
 
 /-! ### hash.ToInt / hash.ToLong -/
 
@@ -322,5 +322,29 @@ theorem ipToBytes_tied (s : List Char) :
   have h : ipToBytes_sep = "." ∧ ipToBytes_count = 4 ∧ ipToBytes_bound = 4 ∧ ipToBytes_mask = 255
       ∧ ipToBytes_default = [0, 0, 0, 0] := by decide
   rw [h.1, h.2.1, h.2.2.1, h.2.2.2.1, h.2.2.2.2]; exact IpShape.toBytesOf_model s
+
+/-! ### non-vacuity: the hypotheses of the ties above are met by concrete inputs -/
+
+example : callWhile (hashArrsO (some [104, 105])) loop_Hash.pre loop_Hash.init loop_Hash.cond loop_Hash.post loop_Hash.body
+    loop_Hash.after 3 (fun _ => 0) = Hash.hash [104, 105] :=
+  hash_full_tied (some [104, 105]) (by decide) (by decide) (fun _ => 0) 0
+
+example : callWhile (hashArrsO none) loop_Hash64v2.pre loop_Hash64v2.init loop_Hash64v2.cond loop_Hash64v2.post
+    loop_Hash64v2.body loop_Hash64v2.after 1 (fun _ => 7) = 0 :=
+  hash64v2_full_tied none (by decide) (by decide) (fun _ => 7) 0
+
+example : callWhile (dataArrs [1, 2, 3]) loop_murmurHash.pre loop_murmurHash.init loop_murmurHash.cond loop_murmurHash.post
+    loop_murmurHash.body loop_murmurHash.after 1 (upd (upd (fun _ => 0) 1 3) 2 7) = ((Murmur.murmur32 [1, 2, 3] 7 : Nat) : Int) :=
+  murmurHash_full_tied [1, 2, 3] (by decide) 7 (by decide) (by decide) _ (by simp [upd]) (by simp [upd]) 0
+
+example (A : Arrays) : StrShape.evalD goToLongF (StrShape.evalT goToStrF (upd (fun _ => 0) 0 Hexa32.minInt64) A tree_ToString32)
+    tree_ToLong32 = Hexa32.minInt64 :=
+  hexa_bijection_tied Hexa32.minInt64 (by decide) A _ (by simp [upd])
+
+example (src : Bytes) (hw : WFB src) :
+    retVal (runRet (bufArrs src)
+      (upd (upd (upd (fun _ => 0) 1 ((Hash.toInt src).getD 0)) 3 ((Hash.toLong src).getD 0)) 4 (Hash.hash src))
+      fn_HashAddr.body) = Hash.hashAddr src :=
+  hashAddr_tied src hw _ (by simp [upd]) (by simp [upd]) (by simp [upd])
 
 end C15Gen
